@@ -477,4 +477,245 @@ theorem allJoins_iff (ups cores downs : List Seg) (src dst : Nat) (es : List Edg
       exact ⟨v, d, ⟨hd, rfl⟩, rfl⟩
     · exact .inr ⟨e, v, hu, v, c, w, ⟨hc, rfl⟩, w, d, ⟨hd, rfl⟩, rfl⟩
 
+/-! `filterDuplicates` -/
+
+
+def KeysDistinct (m : UMap) : Prop := m.Pairwise fun a b => a.1 ≠ b.1
+
+theorem ulookup_none {m : UMap} {fp} : ulookup m fp = none ↔ ∀ kv ∈ m, kv.1 ≠ fp := by
+  induction m with
+  | nil => simp [ulookup]
+  | cons a m ih =>
+    obtain ⟨k, v⟩ := a
+    unfold ulookup
+    by_cases h : k = fp
+    · simp [h]
+    · simp [h, ih]
+
+theorem ulookup_some {m : UMap} {fp v} (h : ulookup m fp = some v) : (fp, v) ∈ m := by
+  induction m with
+  | nil => simp [ulookup] at h
+  | cons a m ih =>
+    obtain ⟨k, w⟩ := a
+    unfold ulookup at h
+    by_cases hk : k = fp
+    · simp [hk] at h; subst h; subst hk; exact List.mem_cons_self
+    · simp [hk] at h; exact List.mem_cons_of_mem _ (ih h)
+
+theorem mem_uset_iff {m : UMap} (hd : KeysDistinct m) {fp v x} :
+    x ∈ uset m fp v ↔ x = (fp, v) ∨ (x ∈ m ∧ x.1 ≠ fp) := by
+  induction m with
+  | nil => simp [uset]
+  | cons a m ih =>
+    obtain ⟨k, w⟩ := a
+    have hd' := List.pairwise_cons.1 hd
+    unfold uset
+    by_cases hk : k = fp
+    · subst hk
+      simp only [if_true, List.mem_cons]
+      constructor
+      · rintro (h | h)
+        · exact .inl h
+        · exact .inr ⟨.inr h, fun he => hd'.1 x h he.symm⟩
+      · rintro (h | ⟨h1 | h1, h2⟩)
+        · exact .inl h
+        · subst h1; exact absurd rfl h2
+        · exact .inr h1
+    · simp only [hk, if_false, List.mem_cons, ih hd'.2]
+      constructor
+      · rintro (h | h | ⟨h1, h2⟩)
+        · subst h; exact .inr ⟨.inl rfl, hk⟩
+        · exact .inl h
+        · exact .inr ⟨.inr h1, h2⟩
+      · rintro (h | ⟨h1 | h1, h2⟩)
+        · exact .inr (.inl h)
+        · exact .inl h1
+        · exact .inr (.inr ⟨h1, h2⟩)
+
+theorem keysDistinct_uset {m : UMap} (hd : KeysDistinct m) (fp v) : KeysDistinct (uset m fp v) := by
+  induction m with
+  | nil => simp [uset, KeysDistinct]
+  | cons a m ih =>
+    obtain ⟨k, w⟩ := a
+    have hd' := List.pairwise_cons.1 hd
+    unfold uset
+    by_cases hk : k = fp
+    · subst hk
+      simp only [if_true]
+      exact List.pairwise_cons.2 ⟨hd'.1, hd'.2⟩
+    · simp only [hk, if_false]
+      refine List.pairwise_cons.2 ⟨?_, ih hd'.2⟩
+      intro b hb
+      rcases (mem_uset_iff hd'.2).1 hb with h | ⟨h1, _⟩
+      · subst h; exact hk
+      · exact hd'.1 b h1
+
+theorem keysDistinct_eq {m : UMap} (hd : KeysDistinct m) {a b} (ha : a ∈ m) (hb : b ∈ m)
+    (h : a.1 = b.1) : a = b := by
+  induction m with
+  | nil => cases ha
+  | cons x m ih =>
+    have hd' := List.pairwise_cons.1 hd
+    rcases List.mem_cons.1 ha with rfl | ha' <;> rcases List.mem_cons.1 hb with rfl | hb'
+    · rfl
+    · exact absurd h (hd'.1 b hb')
+    · exact absurd h.symm (hd'.1 a ha')
+    · exact ih hd'.2 ha' hb'
+
+/-- invariant of the first loop of `filterDuplicates` after the paths `pre` have been processed -/
+structure DedupInv (m : UMap) (pre : List Path) : Prop where
+  distinct : KeysDistinct m
+  sound : ∀ kv ∈ m, ∃ p, pre[kv.2.1]? = some p ∧ p.intfs = kv.1 ∧ p.expiry = kv.2.2
+  complete : ∀ p ∈ pre, ∃ kv ∈ m, kv.1 = p.intfs ∧ p.expiry ≤ kv.2.2
+
+theorem dedupInv_step {m pre} (h : DedupInv m pre) (p : Path) :
+    DedupInv (dedupStep m (pre.length, p)) (pre ++ [p]) := by
+  have hnew : (pre ++ [p])[pre.length]? = some p := by simp
+  have hold : ∀ (i : Nat) (q : Path), pre[i]? = some q → (pre ++ [p])[i]? = some q := by
+    intro i q hq
+    have hi : i < pre.length := by
+      rcases Nat.lt_or_ge i pre.length with h | h
+      · exact h
+      · rw [List.getElem?_eq_none h] at hq; cases hq
+    rw [List.getElem?_append_left hi]; exact hq
+  unfold dedupStep
+  dsimp only
+  cases hl : ulookup m p.intfs with
+  | none =>
+    simp only
+    have hno := ulookup_none.1 hl
+    refine ⟨keysDistinct_uset h.distinct _ _, ?_, ?_⟩
+    · intro kv hkv
+      rcases (mem_uset_iff h.distinct).1 hkv with rfl | ⟨h1, _⟩
+      · exact ⟨p, hnew, rfl, rfl⟩
+      · obtain ⟨q, hq, h2, h3⟩ := h.sound kv h1
+        exact ⟨q, hold _ _ hq, h2, h3⟩
+    · intro q hq
+      rcases List.mem_append.1 hq with hq | hq
+      · obtain ⟨kv, hkv, h1, h2⟩ := h.complete q hq
+        refine ⟨kv, (mem_uset_iff h.distinct).2 (.inr ⟨hkv, ?_⟩), h1, h2⟩
+        exact hno kv hkv
+      · simp at hq; subst hq
+        exact ⟨_, (mem_uset_iff h.distinct).2 (.inl rfl), rfl, Nat.le_refl _⟩
+  | some v =>
+    obtain ⟨i0, e0⟩ := v
+    simp only
+    have hmem := ulookup_some hl
+    split
+    · next hgt =>
+      refine ⟨keysDistinct_uset h.distinct _ _, ?_, ?_⟩
+      · intro kv hkv
+        rcases (mem_uset_iff h.distinct).1 hkv with rfl | ⟨h1, _⟩
+        · exact ⟨p, hnew, rfl, rfl⟩
+        · obtain ⟨q, hq, h2, h3⟩ := h.sound kv h1
+          exact ⟨q, hold _ _ hq, h2, h3⟩
+      · intro q hq
+        rcases List.mem_append.1 hq with hq | hq
+        · obtain ⟨kv, hkv, h1, h2⟩ := h.complete q hq
+          by_cases hk : kv.1 = p.intfs
+          · -- the replaced entry: it was (p.intfs, i0, e0) by distinctness
+            have hkv' : kv = (p.intfs, i0, e0) := keysDistinct_eq h.distinct hkv hmem hk
+            subst hkv'
+            refine ⟨_, (mem_uset_iff h.distinct).2 (.inl rfl), h1, ?_⟩
+            simp at h2 ⊢; omega
+          · exact ⟨kv, (mem_uset_iff h.distinct).2 (.inr ⟨hkv, hk⟩), h1, h2⟩
+        · simp at hq; subst hq
+          exact ⟨_, (mem_uset_iff h.distinct).2 (.inl rfl), rfl, Nat.le_refl _⟩
+    · next hle =>
+      refine ⟨h.distinct, ?_, ?_⟩
+      · intro kv hkv
+        obtain ⟨q, hq, h2, h3⟩ := h.sound kv hkv
+        exact ⟨q, hold _ _ hq, h2, h3⟩
+      · intro q hq
+        rcases List.mem_append.1 hq with hq | hq
+        · exact h.complete q hq
+        · simp at hq; subst hq
+          exact ⟨_, hmem, rfl, by simp at hle ⊢; omega⟩
+
+theorem dedupInv_fold (l : List Path) (m : UMap) (pre : List Path) (h : DedupInv m pre) :
+    DedupInv ((indexedFrom pre.length l).foldl dedupStep m) (pre ++ l) := by
+  induction l generalizing m pre with
+  | nil => simpa [indexedFrom] using h
+  | cons p l ih =>
+    have := ih _ _ (dedupInv_step h p)
+    simpa [indexedFrom] using this
+
+theorem dedupInv_final (ps : List Path) : DedupInv ((indexedFrom 0 ps).foldl dedupStep []) ps := by
+  have := dedupInv_fold ps [] [] ⟨List.Pairwise.nil, by simp, by simp⟩
+  simpa using this
+
+theorem indexedFrom_fst_ge {α : Type} (l : List α) (i : Nat) : ∀ x ∈ indexedFrom i l, i ≤ x.1 := by
+  induction l generalizing i with
+  | nil => simp [indexedFrom]
+  | cons a as ih =>
+    intro x hx
+    simp only [indexedFrom, List.mem_cons] at hx
+    rcases hx with rfl | hx
+    · exact Nat.le_refl _
+    · exact Nat.le_trans (Nat.le_succ _) (ih _ x hx)
+
+theorem indexedFrom_pairwise {α : Type} (l : List α) (i : Nat) :
+    (indexedFrom i l).Pairwise fun a b => a.1 < b.1 := by
+  induction l generalizing i with
+  | nil => exact List.Pairwise.nil
+  | cons a as ih =>
+    simp only [indexedFrom]
+    exact List.pairwise_cons.2 ⟨fun x hx => indexedFrom_fst_ge as (i + 1) x hx, ih _⟩
+
+/-- membership in the result of `filterDuplicates`, in terms of the final map -/
+theorem mem_filterDuplicates {ps : List Path} {q : Path} :
+    q ∈ filterDuplicates ps ↔ ∃ i, ps[i]? = some q ∧
+      ∃ kv ∈ (indexedFrom 0 ps).foldl dedupStep [], kv.2.1 = i := by
+  unfold filterDuplicates
+  simp only [List.mem_map, List.mem_filter, List.any_eq_true, beq_iff_eq, Prod.exists,
+    mem_indexedFrom_zero]
+  constructor
+  · rintro ⟨i, q', ⟨hq, kv, a, b, hkv, rfl⟩, rfl⟩
+    exact ⟨_, hq, kv, a, b, hkv, rfl⟩
+  · rintro ⟨i, hq, kv, a, b, hkv, rfl⟩
+    exact ⟨_, q, ⟨hq, kv, a, b, hkv, rfl⟩, rfl⟩
+
+theorem filterDuplicates_covers (ps : List Path) (p : Path) (hp : p ∈ ps) :
+    ∃ q ∈ filterDuplicates ps, q.intfs = p.intfs ∧ p.expiry ≤ q.expiry := by
+  have inv := dedupInv_final ps
+  obtain ⟨kv, hkv, h1, h2⟩ := inv.complete p hp
+  obtain ⟨q, hq, h3, h4⟩ := inv.sound kv hkv
+  exact ⟨q, mem_filterDuplicates.2 ⟨_, hq, kv, hkv, rfl⟩, by rw [h3, h1], by rw [h4]; exact h2⟩
+
+theorem filterDuplicates_latest (ps : List Path) (q : Path) (hq : q ∈ filterDuplicates ps)
+    (p : Path) (hp : p ∈ ps) (hfp : p.intfs = q.intfs) : p.expiry ≤ q.expiry := by
+  have inv := dedupInv_final ps
+  obtain ⟨i, hqi, kv, hkv, rfl⟩ := mem_filterDuplicates.1 hq
+  obtain ⟨q', hq', h3, h4⟩ := inv.sound kv hkv
+  rw [hqi] at hq'; cases hq'
+  obtain ⟨kv', hkv', h1, h2⟩ := inv.complete p hp
+  have : kv' = kv := keysDistinct_eq inv.distinct hkv' hkv (by rw [h1, hfp, h3])
+  subst this
+  rw [h4]; exact h2
+
+theorem filterDuplicates_unique (ps : List Path) :
+    (filterDuplicates ps).Pairwise fun a b => a.intfs ≠ b.intfs := by
+  have inv := dedupInv_final ps
+  unfold filterDuplicates
+  dsimp only
+  rw [List.pairwise_map]
+  have hp := (indexedFrom_pairwise ps 0).sublist (List.filter_sublist
+    (p := fun ip => ((indexedFrom 0 ps).foldl dedupStep []).any fun kv => kv.2.1 == ip.1))
+  refine hp.imp_of_mem ?_
+  intro a b ha hb hlt heq
+  simp only [List.mem_filter, List.any_eq_true, beq_iff_eq] at ha hb
+  obtain ⟨ha1, kva, hkva, hia⟩ := ha
+  obtain ⟨hb1, kvb, hkvb, hib⟩ := hb
+  obtain ⟨ia, pa⟩ := a
+  obtain ⟨ib, pb⟩ := b
+  rw [mem_indexedFrom_zero] at ha1 hb1
+  obtain ⟨qa, hqa, h3a, _⟩ := inv.sound kva hkva
+  obtain ⟨qb, hqb, h3b, _⟩ := inv.sound kvb hkvb
+  simp only at hia hib hlt heq
+  rw [hia, ha1] at hqa; cases hqa
+  rw [hib, hb1] at hqb; cases hqb
+  have : kva = kvb := keysDistinct_eq inv.distinct hkva hkvb (by rw [← h3a, ← h3b, heq])
+  subst this
+  omega
+
 end Scion.Combinator
